@@ -534,6 +534,9 @@ func (q *MustPass) resolve(fn *ssa.Function, v ssa.Value, want Pred, depth int) 
 		if q.calleeImplies(v, want, depth) {
 			return rDischarged, nil
 		}
+		if q.existsImplies(a, depth) {
+			return rDischarged, nil
+		}
 	}
 	// remember the fact: the same SSA value cannot have the opposite polarity on the same path
 	return rPending, []demand{{v, want}}
@@ -607,6 +610,53 @@ func (q *MustPass) calleeImplies(v ssa.Value, want Pred, depth int) bool {
 		}
 	}
 	return true
+}
+
+// existsImplies: the atom says that a search with a predicate found an element - slices.ContainsFunc(S, f) is
+// true, slices.IndexFunc(S, f) >= 0 - so f returned true for some element of S. The obligation follows if every
+// true-returning path of f passes it, with f's parameter described as an element of S.
+func (q *MustPass) existsImplies(a Atom, depth int) bool {
+	a = normAtom(a)
+	var c *ssa.Call
+	if cc, _ := callAndResult(a.V); cc != nil && calleeName(cc) == "slices.ContainsFunc" && a.Want == True {
+		c = cc
+	} else if g, ok := parseGuard(a, nil); ok && g.Kind == "int" && g.BoundA.isConst() {
+		if cc, isCall := stripConv(g.SubjV).(*ssa.Call); isCall && calleeName(cc) == "slices.IndexFunc" {
+			k := g.BoundA.C
+			if (g.Rel == ">=" && k >= 0) || (g.Rel == ">" && k >= -1) || (g.Rel == "!=" && k == -1) || (g.Rel == "==" && k >= 0) {
+				c = cc
+			}
+		}
+	}
+	if c == nil || len(c.Call.Args) != 2 {
+		return false
+	}
+	var f *ssa.Function
+	switch x := c.Call.Args[1].(type) {
+	case *ssa.MakeClosure:
+		f, _ = x.Fn.(*ssa.Function)
+	case *ssa.Function:
+		f = x
+	}
+	if f == nil || f.Blocks == nil || len(f.Params) != 1 || !inModuleFn(f) {
+		return false
+	}
+	p := f.Params[0]
+	old, had := paramBind[p]
+	oldV, hadV := paramBindV[p]
+	paramBind[p] = desc(c.Call.Args[0]) + "[*]"
+	delete(paramBindV, p)
+	defer func() {
+		if had {
+			paramBind[p] = old
+		} else {
+			delete(paramBind, p)
+		}
+		if hadV {
+			paramBindV[p] = oldV
+		}
+	}()
+	return q.implied(f, AcceptTrue(0), depth+1)
 }
 
 func (q *MustPass) implied(g *ssa.Function, acc Accept, depth int) bool {
